@@ -890,8 +890,8 @@ class Interp:
                 st.mem[root][p] = g
                 continue
             if sub_new and new[0] == "term" and old[0] == "term":
-                so, sn = _subst(old, sub_old), _subst(new, sub_new)
-                if so == sn and sn != new:
+                so, sn = _subst(old, sub_old), self._subst_fresh(new, sub_new)
+                if sn is not None and so == sn and sn != new:
                     st.mem[root][p] = sn
                     continue
             w_ = self.widen_leaf(st, key, root, p, old, new)
@@ -911,8 +911,8 @@ class Interp:
                 pd = prev.get(root) or {}
                 for p, l in list(d.items()):
                     if (root, p) not in processed and p not in pd and l[0] == "term":
-                        nl = _subst(l, sub_new)
-                        if nl != l:
+                        nl = self._subst_fresh(l, sub_new)
+                        if nl is not None and nl != l:
                             d[p] = nl
                             processed.add((root, p))
         # stale mentions of a re-incarnated atom
@@ -921,6 +921,17 @@ class Interp:
                 continue
             if st.mem.get(root, {}).get(p) == l and any(self.mentions(l, a) for a in atoms):
                 st.mem[root][p] = TOP
+
+    def _subst_fresh(self, t, table):
+        """t with every value-now replaced by its atom - or None when t ALSO mentions one of those atoms on its own
+        (that mention means the atom's previous incarnation: the two must not be confused)"""
+        marks = {k: ("term", ("@mark", i)) for i, k in enumerate(table)}
+        tmp = _subst(t, marks)
+        for w in set(table.values()):
+            if self.mentions(tmp, w):
+                return None
+        back = {marks[k]: table[k] for k in table}
+        return _subst(tmp, back)
 
     def widen_leaf(self, st, key, root, p, old, new):
         """widening with thresholds: the changed value becomes a fresh atom W (one per loop head and
